@@ -116,8 +116,16 @@ class Gen:
 
     def locate_fn(self, kv):
         src, masked = self.src(kv["file"])
-        lo, hi = rsx.find_impl(masked, kv.get("impl", ""))
-        return src, masked, rsx.find_fn(src, masked, kv["name"], lo, hi)
+        found = []
+        for lo, hi in rsx.find_impl(masked, kv.get("impl", "")):
+            try:
+                found.append(rsx.find_fn(src, masked, kv["name"], lo, hi))
+            except ExtractError as e:
+                if "matched 0 times" not in str(e):
+                    raise
+        if len(found) != 1:
+            raise ExtractError("fn %s found %d times in %s %s" % (kv["name"], len(found), kv["file"], kv.get("impl", "")))
+        return src, masked, found[0]
 
     def expand(self, template_path):
         lines = open(template_path, encoding="utf-8").read().split("\n")
